@@ -22,6 +22,8 @@ mod range_map;
 mod regex_to_nfa;
 mod right_ctx;
 mod semantic_action_table;
+#[cfg(feature = "verif")]
+mod verif;
 
 #[cfg(test)]
 mod tests;
@@ -41,6 +43,9 @@ use syn::parse::Parser;
 
 #[proc_macro]
 pub fn lexer(input: TokenStream) -> TokenStream {
+    #[cfg(feature = "verif")]
+    let mut verif_guard = verif::Guard::new();
+
     let mut semantic_action_table = SemanticActionTable::new();
 
     let Lexer {
@@ -54,6 +59,9 @@ pub fn lexer(input: TokenStream) -> TokenStream {
         Ok(lexer) => lexer,
         Err(error) => return TokenStream::from(error.to_compile_error()),
     };
+
+    #[cfg(feature = "verif")]
+    verif_guard.set_name(type_name.to_string());
 
     // Maps DFA names to their initial states in the final DFA
     let mut dfas: Map<String, dfa::StateIdx> = Default::default();
